@@ -68,7 +68,9 @@ $(B)/libtins.a: $(OBJS)
 	@rm -f $@
 	ar rcs $@ $(OBJS)
 
-$(B)/%: $(V)/engines/%.cpp $(B)/libtins.a $(wildcard $(V)/sim/*.hpp) $(wildcard $(V)/engines/*.inc)
+# engines include libtins headers directly (templates such as sniff_loop live there): any header change rebuilds them
+HDRS := $(shell find $(REPO)/include -name '*.h' | sort)
+$(B)/%: $(V)/engines/%.cpp $(B)/libtins.a $(wildcard $(V)/sim/*.hpp) $(wildcard $(V)/engines/*.inc) $(HDRS)
 	$(CXX) $(if $(ENGCXXFLAGS),$(ENGCXXFLAGS),$(CXXFLAGS)) $(ENGFLAGS_$*) $(DEFS) $(INC) $< -o $@ $(B)/libtins.a $(LDFLAGS) $(LIBS) $(ENGLIBS_$*)
 
 engine-%: $(B)/%
